@@ -115,8 +115,16 @@ func runInterleave(r *hx.R, n int, w *hx.W, _ []string) error {
 	deps.App.BankKeeper.SetDenomMetaData(deps.Ctx, mkMetaPc("ulog"))
 	_ = testapp.FundAccount(deps.App.BankKeeper, deps.Ctx, accs[1].NibiruAddr, sdk.NewCoins(sdk.NewInt64Coin("ulog", 1_000_000)))
 	_ = testapp.FundAccount(deps.App.BankKeeper, deps.Ctx, deps.Sender.NibiruAddr, k.FeeForCreateFunToken(deps.Ctx))
-	if _, err := k.CreateFunToken(sdk.WrapSDKContext(deps.Ctx), &evm.MsgCreateFunToken{FromBankDenom: "ulog", Sender: deps.Sender.NibiruAddr.String()}); err != nil {
+	ftResp, err := k.CreateFunToken(sdk.WrapSDKContext(deps.Ctx), &evm.MsgCreateFunToken{FromBankDenom: "ulog", Sender: deps.Sender.NibiruAddr.String()})
+	if err != nil {
 		return fmt.Errorf("create funtoken: %w", err)
+	}
+	ulogErc20 := ftResp.FuntokenMapping.Erc20Addr.Address
+	k.Bank.StateDB = nil
+	// accs[0] holds some of the mapped ERC20, so that a query can run FunToken.sendToBank all the way to its bank operation
+	if _, err := k.ConvertCoinToEvm(sdk.WrapSDKContext(deps.Ctx), &evm.MsgConvertCoinToEvm{Sender: accs[1].NibiruAddr.String(),
+		BankCoin: sdk.NewInt64Coin("ulog", 50_000), ToEthAddr: eth.EIP55Addr{Address: accs[0].EthAddr}}); err != nil {
+		return fmt.Errorf("convert ulog: %w", err)
 	}
 	k.Bank.StateDB = nil
 	base := deps.Ctx
@@ -126,7 +134,7 @@ func runInterleave(r *hx.R, n int, w *hx.W, _ []string) error {
 	digestSkip = nil
 
 	queryKinds := []string{"none", "bank-balance", "ethcall-view", "estimate-gas", "ethcall-bank-precompile", "simulate-ethtx", "simulate-convert",
-		"simulate-convert-bad", "simulate-createft-bad", "simulate-createft-erc20", "simulate-ethtx-bad", "ethcall-value-precompile-query"}
+		"simulate-convert-bad", "simulate-createft-bad", "simulate-createft-erc20", "simulate-ethtx-bad", "ethcall-value-precompile-query", "ethcall-funtoken-sendtobank"}
 	yields := []string{"between-txs", "in-tx-before-bank-op", "in-tx-after-bank-op", "tx-starts-while-simulation-in-flight"}
 
 	runQuery := func(kind string, amt int64) string {
@@ -158,6 +166,19 @@ func runInterleave(r *hx.R, n int, w *hx.W, _ []string) error {
 					return "ok"
 				}
 				res, err := k.EthCall(sdk.WrapSDKContext(qctx), req)
+				if err != nil || res.VmError != "" {
+					return "err"
+				}
+				return "ok"
+			case "ethcall-funtoken-sendtobank":
+				// an eth_call that runs FunToken.sendToBank of a coin-born mapping to completion (ERC20 burnt, bank coins released): no NIBI
+				// moves, so nothing of it may reach the block's StateDB, and nothing may stay published when the query returns
+				to := precompile.PrecompileAddr_FunToken
+				data, _ := ftABI.Pack("sendToBank", ulogErc20, big.NewInt(amt), recipients[1].String())
+				hd := hexutil.Bytes(data)
+				from := accs[0].EthAddr
+				jargs, _ := json.Marshal(evm.JsonTxArgs{From: &from, To: &to, Input: &hd})
+				res, err := k.EthCall(sdk.WrapSDKContext(qctx), &evm.EthCallRequest{Args: jargs, GasCap: 5_000_000})
 				if err != nil || res.VmError != "" {
 					return "err"
 				}
